@@ -237,7 +237,16 @@ type world struct {
 	// wave 6: kv compaction of the metadata / index families (compact_test.go)
 	book    *compactBook
 	group   string // test the history belongs to (evidence group)
-	profile string // "" or "compaction": histories biased to name-introducing flush cycles and compactions, no I/O faults
+	profile string // "" or "compaction": histories biased to name-introducing flush cycles and compactions, no I/O faults; "shutdown": every history ends with a graceful shutdown
+	// wave 7: graceful shutdown (shutdown_test.go)
+	sd              *sdState // shutdown in flight
+	shutdowns       int
+	cycleAtShutdown int      // sub-step of the harness-driven flush cycle which was next when the node was told to stop
+	sdFiredAt       int      // position in im.Points of the first failed operation of the terminal shutdown (-1: none)
+	genDirs         []string // copies on which later generations of a recovered node run
+	// wave 7: follower of the log this node leads (follower_test.go)
+	flw       *followerModel // nil: the log has the local consumer group only
+	gcWindows []int          // positions in im.Points of housekeeping ticks at which the follower's group was ahead of the local group
 }
 
 // appendSpec holds the draws of one append (drawn before the operation which performs it runs).
@@ -339,9 +348,9 @@ func (w *world) openLog(li int) *logSt {
 	if err != nil {
 		w.fatalf("harness: wal: %v", err)
 	}
-	lg.part = replica.NewPartition(context.Background(), w.shard, w.family, nodeID, lg.fq, nil, nil)
+	lg.part = replica.NewPartition(context.Background(), w.shard, w.family, nodeID, lg.fq, &flwCliFct{w: w}, flwStateMgr{})
 	if leader == nodeID {
-		err = lg.part.BuildReplicaForLeader(nodeID, []models.NodeID{nodeID})
+		err = lg.part.BuildReplicaForLeader(nodeID, w.replicasOf())
 	} else {
 		err = lg.part.BuildReplicaForFollower(leader, nodeID)
 	}
@@ -693,7 +702,10 @@ func (w *world) noteFlushed(step string) {
 }
 
 // faultHook is asked once for every table-file / manifest-record operation.
-func (w *world) faultHook(op, _ string) error {
+func (w *world) faultHook(op, path string) error {
+	if sd := w.sd; sd != nil && sd.active {
+		return w.shutdownFault(op, path)
+	}
 	fp := w.fault
 	if fp == nil || w.racing || w.faultFired != "" || fp.step != w.subStep || fp.op != op {
 		return nil
@@ -877,10 +889,12 @@ func (w *world) opLogGC() {
 	}
 	lg := w.logs[ll[rapid.IntRange(0, 5).Draw(w.t, "gcLog")%len(ll)]]
 	w.logf("logGC log of leader %d", lg.leader)
+	from := len(w.im.Points)
 	w.begin("logGC")
 	lg.fq.Sync()
 	lg.fq.Queue().GC()
 	w.end()
+	w.noteLogTick(lg, from)
 }
 
 // ---- recovery + oracle ------------------------------------------------------------------------------
@@ -902,6 +916,7 @@ type logImage struct {
 	removed        bool  // the removal task had removed the partition
 	appendedBefore int   // records whose append had returned when the crash hit
 	logApp         int64 // last sequence in the recovered log
+	queueAck       int64 // truncation barrier of the log queue (Queue.AcknowledgedSeq)
 	groupAck       int64 // acknowledged position of the local replicator's consumer group
 	persisted      int64 // sequence stored for the leader with the flushed data
 	visible        int   // records of the log which the recovered node must show
@@ -916,7 +931,7 @@ func (w *world) recoverImage(p crash.Point) {
 		if lg == nil {
 			continue
 		}
-		li0 := &logImage{lg: lg, appendedBefore: w.appendedAt[p.OpIdx][li], logApp: -1, groupAck: -1, persisted: -1}
+		li0 := &logImage{lg: lg, appendedBefore: w.appendedAt[p.OpIdx][li], logApp: -1, groupAck: -1, queueAck: -1, persisted: -1}
 		li0.removed = lg.removedSeq >= 0 && p.Seq >= lg.removedSeq
 		dir := walDir(cfgWal, w.db, lg.leader)
 		if st, err := os.Stat(dir); err == nil && st.IsDir() {
@@ -926,6 +941,7 @@ func (w *world) recoverImage(p crash.Point) {
 				w.fatalf("image %s: log of leader %d cannot be reopened: %v", p, lg.leader, err)
 			}
 			li0.logApp = fq.Queue().AppendedSeq()
+			li0.queueAck = fq.Queue().AcknowledgedSeq()
 			for _, name := range fq.ConsumerGroupNames() {
 				if name == strconv.Itoa(int(nodeID)) {
 					cg, _ := fq.GetOrCreateConsumerGroup(name)
@@ -1001,6 +1017,7 @@ func (w *world) recoverImage(p crash.Point) {
 	}
 	for _, im := range imgs {
 		ackCheck("", im, im.groupAck)
+		ackCheck(" (truncation barrier of the log queue)", im, im.queueAck)
 	}
 	// 3. production WAL recovery, free running replication drains the logs.
 	// With logs of several leaders the loops of the logs write into the family concurrently (one goroutine
@@ -1015,6 +1032,10 @@ func (w *world) recoverImage(p crash.Point) {
 	}
 	var held []replica.Partition
 	stepped := present >= 2 && (ev.Known(sigConc) || rapid.Bool().Draw(w.t, "replayByDrawnInterleaving"))
+	if w.flw != nil && present >= 1 {
+		// a log with a follower group: the follower is not reachable, only the local replicators are stepped
+		stepped = true
+	}
 	if stepped {
 		replica.NewPartitionFn = func(ctx context.Context, shard tsdb.Shard, family tsdb.DataFamily, currentNodeID models.NodeID,
 			log queue.FanOutQueue, cliFct rpc.ClientStreamFactory, stateMgr storage.StateManager,
@@ -1026,7 +1047,7 @@ func (w *world) recoverImage(p crash.Point) {
 		defer func() { replica.NewPartitionFn = replica.NewPartition }()
 	}
 	cfg := config.GlobalStorageConfig()
-	walMgr = replica.NewWriteAheadLogManager(context.Background(), cfg.WAL, nodeID, n.Engine, nil, nil)
+	walMgr = replica.NewWriteAheadLogManager(context.Background(), cfg.WAL, nodeID, n.Engine, recoveryCliFct(), flwStateMgr{})
 	if err := walMgr.Recovery(); err != nil {
 		w.fatalf("image %s: WAL recovery: %v", p, err)
 	}
@@ -1253,16 +1274,27 @@ func (w *world) recoverImage(p crash.Point) {
 	// 5. the node lives on: flush cycles, kv compaction, names which did not exist before the crash, restart
 	// (always for the image of the idle node at the end of the history, else for every other image;
 	// C07_NO_CONTINUATION=1 switches it off - only used to measure what the compactions inside the histories detect alone)
-	if writes > 0 && os.Getenv("C07_NO_CONTINUATION") == "" && (p.FSOp == "endOfHistory" || p.FSOp == "logRemoved" || rapid.Bool().Draw(w.t, "continueAfterRecovery")) {
-		env := &postEnv{p: p, root: filepath.Join(p.Dir, "data", w.db), visible: isVisible, hasSum: true, sum: sum, describe: describe,
+	classes = append(classes, w.shutdownImageClasses(p, imgs)...)
+	if writes > 0 && os.Getenv("C07_NO_CONTINUATION") == "" && (p.FSOp == "endOfHistory" || p.FSOp == "logRemoved" || p.FSOp == "afterShutdown" || rapid.Bool().Draw(w.t, "continueAfterRecovery")) {
+		var env *postEnv
+		env = &postEnv{p: p, dir: p.Dir, root: filepath.Join(p.Dir, "data", w.db), visible: isVisible, hasSum: true, sum: sum, describe: describe,
 			node: func() *node.Node { return n },
 			query: func(q string) (node.Result, error) {
 				rs, err := c.Query(w.db, q)
 				return node.Canon(rs), err
 			},
-			restart: func() {
+			restart: func(plan *sdPlan, unloggedRows int) {
 				c.Close()
-				w.restartRecovered(p, &n, &walMgr, imgs, describe)
+				pp := p
+				if plan == nil {
+					pp.Dir = env.dir
+					w.restartRecovered(pp, &n, &walMgr, imgs, describe)
+				} else {
+					// the node is stopped while operations fail; the next generation starts on a copy of what it left
+					w.stopRecoveredWithFault(env, plan, &n, &walMgr, unloggedRows)
+					pp.Dir = env.dir
+					w.startRecovered(pp, &n, &walMgr, imgs, describe)
+				}
 				c = newCluster(n, w.db)
 			},
 		}
@@ -1292,6 +1324,12 @@ func runHistory(t *rapid.T, thorough bool, group, profile string) {
 	w.im = &crash.Imager{Root: w.dir, OutDir: filepath.Join(dir, "img")}
 	w.leaders = rapid.SampledFrom(leaderSets).Draw(t, "leadersOfTheFamilyLogs")
 	w.logs = make([]*logSt, len(w.leaders))
+	for _, l := range w.leaders {
+		if l == nodeID && rapid.IntRange(0, 2).Draw(t, "followerOfTheLogThisNodeLeads") != 0 {
+			w.flw = &followerModel{last: -1}
+			w.classes["history-whose-own-log-has-a-follower-group"]++
+		}
+	}
 	// a crash inside the stream of logical writes of one table file leaves a file no manifest names:
 	// one in four of these points is imaged (which ones is drawn), every other point always
 	salt := rapid.IntRange(0, 3).Draw(t, "tableWriteImages")
@@ -1384,6 +1422,8 @@ func runHistory(t *rapid.T, thorough bool, group, profile string) {
 		"flushJob":           func(t *rapid.T) { w.t = t; w.opFlushJob() },
 		"appendSkipped":      func(t *rapid.T) { w.t = t; w.opAppendSkipped() },
 		"logGC":              func(t *rapid.T) { w.t = t; w.opLogGC() },
+		"followerStep":       func(t *rapid.T) { w.t = t; w.opFollowerStep() },
+		"followerStep2":      func(t *rapid.T) { w.t = t; w.opFollowerStep() },
 		"compactKV":          func(t *rapid.T) { w.t = t; w.opCompactKV("") },
 		"namesAndFlushCycle": func(t *rapid.T) { w.t = t; w.opNamesAndFlushCycle() },
 	}
@@ -1411,7 +1451,10 @@ func runHistory(t *rapid.T, thorough bool, group, profile string) {
 	// syncs + collects the log and says whether the partition of this (long past) family may be
 	// removed; if so the task stops and closes the partition and removes its directory.
 	// Usually the replicator has consumed everything when the task looks at the partition.
-	removal := rapid.SampledFrom([]string{"none", "task", "caught-up+task", "caught-up+task"}).Draw(t, "logRemovalTask")
+	removal := "none"
+	if profile != "shutdown" {
+		removal = rapid.SampledFrom([]string{"none", "task", "caught-up+task", "caught-up+task"}).Draw(t, "logRemovalTask")
+	}
 	if removal == "caught-up+task" {
 		w.catchUp()
 		if len(w.pendingLogs()) == 0 {
@@ -1424,7 +1467,10 @@ func runHistory(t *rapid.T, thorough bool, group, profile string) {
 		w.begin("logRemovalTask")
 		for _, li := range w.liveLogs() {
 			lg := w.logs[li]
-			if lg.part.IsExpire() {
+			from := len(w.im.Points)
+			if !lg.part.IsExpire() {
+				w.noteLogTick(lg, from)
+			} else {
 				lg.part.Stop()
 				_ = lg.part.Close()
 				_ = os.RemoveAll(lg.path)
@@ -1454,6 +1500,17 @@ func runHistory(t *rapid.T, thorough bool, group, profile string) {
 	}
 	w.classes[fmt.Sprintf("history-with-logs-of-%d-leaders", opened)]++
 
+	// wave 7: instead of dying the node may be stopped (production shutdown order), with or without an I/O fault;
+	// the crash points inside the shutdown and what the stopped process leaves are further images
+	w.sdFiredAt = -1
+	shutdownPct, shutdownFaultPct, _ := w.shutdownOdds()
+	if !anyRemoved && rapid.IntRange(0, 99).Draw(t, "gracefulShutdown") < shutdownPct {
+		plan := drawShutdownPlan(t, shutdownFaultPct)
+		w.beforeShutdown(t)
+		liveClosed = true
+		w.opShutdown(plan)
+	}
+
 	// ---- the crash: the live node is not used any more; sampled images are recovered
 	pts := w.im.Points
 	w.im.Active = false
@@ -1468,6 +1525,9 @@ func runHistory(t *rapid.T, thorough bool, group, profile string) {
 	if thorough {
 		limit = 30
 	}
+	if profile == "shutdown" {
+		limit = limit * 6 / 10
+	}
 	chosen := map[int]bool{}
 	tag := func(i int, t string) { w.imageTags[pts[i].Seq] = append(w.imageTags[pts[i].Seq], t) }
 	isFlushOp := func(n string) bool { return n == "flushFamily" || n == "flushIndex" || n == "flushMeta" }
@@ -1481,10 +1541,12 @@ func runHistory(t *rapid.T, thorough bool, group, profile string) {
 	} else {
 		// the idle node at the end and the removed logs
 		for _, i := range withDir {
-			if pts[i].FSOp == "logRemoved" || pts[i].FSOp == "endOfHistory" {
+			if pts[i].FSOp == "logRemoved" || pts[i].FSOp == "endOfHistory" || pts[i].FSOp == "afterShutdown" {
 				chosen[i] = true
 			}
 		}
+		// crash points inside the graceful shutdown
+		w.shutdownImages(t, pts, chosen, tag)
 		// loss windows: from the commit of a data flush inside which the replicator ran (resp. from a
 		// skipped record above unflushed writes) to the next commit of a data flush: the last image
 		// of the window and a drawn one
@@ -1521,6 +1583,7 @@ func runHistory(t *rapid.T, thorough bool, group, profile string) {
 		}
 		pickWindows(w.raceWindows, true, "window-after-data-flush-with-replication-inside")
 		pickWindows(w.skipWindows, false, "window-after-skipped-record-above-unflushed-writes")
+		pickWindows(w.gcWindows, false, "window-after-log-housekeeping-tick-with-follower-group-ahead-of-local-group")
 		// fault windows: from the failed operation of a flush sub-step to the start of the next metadata
 		// flush (which repairs whatever the failed cycle left behind): the last image with a copy and a drawn one
 		faultWindow := func(start int) {
@@ -1626,9 +1689,19 @@ func runHistory(t *rapid.T, thorough bool, group, profile string) {
 	}
 	// the recovered engines share process-wide singletons with the live one: stop using the live node first
 	closeLive()
+	// the recovered nodes run with pass-through table / manifest seams: a graceful restart of a recovered node
+	// may get an I/O fault (faultHook answers nil unless a shutdown with a fault plan is in flight)
+	nop := func(string, string, bool) {}
+	version.VerifSetFSHookWithFaults(nop, w.faultHook)
+	table.VerifSetFSHookWithFaults(nop, w.faultHook)
 	for _, i := range order {
 		w.recoverImage(pts[i])
+		for _, d := range w.genDirs {
+			_ = os.RemoveAll(d)
+		}
+		w.genDirs = nil
 	}
+	cleanupHooks()
 	w.im.Drop()
 	for c, n := range w.classes {
 		ev.Class(w.group, c, n)
